@@ -38,6 +38,7 @@ TOL = {
     "ydir": 1e-7,            # recorded y vs P(x - g/mu) - x recomputed through the implementation's own P and gradient
     # optimality
     "gap_consistency": 1e-6,  # f z - f x >= gap_bound(z) - gap_consistency*(1+|f|)   (theorem T5 on the implementation's f, g, P)
+    "universal": 2e-2,       # converged state runs: certified bound U = -<g,y> + 2 mu |y| on what ANY state can gain (first order in |y|: measured <= 5e-4)
     "opt": 2e-6,             # converged runs: f x_final <= f z + opt*(1+|f|) for every physical competitor z
     "cvx_loss_expr": 1e-8,   # S * problem.value vs quara's loss at the CVXPY point
     "cvx_agree": 2e-6,       # |S*cvx loss - backtracking loss| <= cvx_agree*(1+|f|)
@@ -503,7 +504,7 @@ def chk_pgdb(ctx, case):
     mrows = A.shape[0]
     sqdata = rflat(A) + rflat(b) + rflat(q)
     nontrivial_steps = 0
-    steps = pick_steps(k, 10 ** 9 if (case.get("all_steps") or getattr(ctx, "c11_tie_broken", False)) else ctx.n(9, 30), rs)
+    steps = pick_steps(k, 10 ** 9 if case.get("all_steps") else (30 if getattr(ctx, "c11_tie_broken", False) else ctx.n(9, 30)), rs)
     for i in steps:
         x, y, a_impl = xs[i], ys[i], alphas[i]
         with quiet():
@@ -614,6 +615,16 @@ def chk_pgdb(ctx, case):
         gf = np.array(loss.gradient(xf), dtype=float)
         yf = np.array(algo.func_proj(xf - gf / mu), dtype=float) - xf
         f_fin = float(loss.value(xf))
+    # universal certificate (theorems C11_universal_gap_states / C11_universal_gap_ball with R2 = 1, proved for states):
+    # NO physical state at all has a loss below  f(x) - U,   U = -<g,y> + mu * 2|y|
+    if kind == "state" and Mscalar is not None:
+        U = -float(np.dot(gf, yf)) + mu * 2.0 * float(np.linalg.norm(yf)) * (1 + 1e-12)
+        if converged:
+            stat("universal_gap:state:" + ("sq" if issq else "re"), max(0.0, U) / (1 + abs(f_fin)))
+            if U > TOL["universal"] * (1 + abs(f_fin)):
+                vctx.violation(sub, "LossMinimizationEstimator.calc_estimate", "universal-gap-large",
+                               "the run stopped by its criterion (mode %s, eps %.3g, k=%d) but the certified bound on the loss any physical state can gain is %.3g (|y|=%.3g, <g,y>=%.3g) (%s)" % (MODES[mode], eps, k, U, float(np.linalg.norm(yf)), float(np.dot(gf, yf)), label), case)
+                return
     comps = [("truth", to_var(kind, para, truth_full))]
     for j in range(ctx.n(3, 8)):
         comps.append(("random%d" % j, to_var(kind, para, rand_object(kind, c, m, case["truth_seed"] * 31 + 7 + j))))
@@ -1255,8 +1266,8 @@ def run(ctx):
     if not ok2:
         ok, info = False, info2
         ctx.note("regenerated model of optimize / _is_doing_for_alpha / num_cvxpy_variable (coq/gen/C11_Equiv.v) not discharged: %s" % str(info2)[:500])
-        # the tie is broken: widen the differential sweep to find a concrete failing input (every step of every run is replayed,
-        # the whole quick grid instead of half of it)
+        # the tie is broken: widen the differential sweep to find a concrete failing input (up to 30 instead of 9 steps of every run are
+        # replayed, the whole quick grid instead of half of it)
         ctx.c11_tie_broken = True
     if not ok:
         ctx.discharged = min(ctx.discharged, ctx.obligations - 1)
